@@ -792,8 +792,17 @@ fn parse_inner_type(tokens: &mut Tokens) -> Result<ValueType, Error>
 			}
 			Some(Token::NakedDecimal(x)) =>
 			{
-				let length = *x as usize;
-				tokens.pop_front();
+				let value = *x;
+				let (_, location_of_length) =
+					extract("Expected size literal.", tokens)?;
+				// A length that does not fit must not silently wrap around.
+				let length = usize::try_from(value).map_err(|_| {
+					Error::UnexpectedToken {
+						expectation: "Expected size literal that fits in usize."
+							.to_string(),
+						location: location_of_length,
+					}
+				})?;
 				consume(Token::BracketRight, tokens)?;
 				let element_type = parse_inner_type(tokens)?;
 				Ok(ValueType::Array {
